@@ -299,6 +299,23 @@ pub fn run_case(env: &Env, case: &Case, oracle: &mut Oracle, mut fill: Option<Pl
     let mut result = RunResult { case: case.clone(), violations: vec![], digests: vec![], logs: vec![], harness_error: None };
     let _ = std::fs::remove_dir_all(env.home());
     let _ = std::fs::create_dir_all(env.home());
+    if case.seed % 11 == 3 {
+        // a user with settings files of the kind tools look for: nothing typstyle does may depend
+        // on them (the options come from the command line and nowhere else)
+        let h = env.home();
+        let settings = "column = 33\nmax_width = 33\ntab_width = 7\ntab-width = 7\nreorder_import_items = true\nreorder-import-items = true\nexclude = [\"*.typ\"]\n[format]\ncolumn = 21\n";
+        let _ = std::fs::create_dir_all(h.join(".config/typstyle"));
+        let _ = std::fs::write(h.join(".config/typstyle/config.toml"), settings);
+        let _ = std::fs::write(h.join(".config/typstyle/typstyle.toml"), settings);
+        let _ = std::fs::write(h.join(".config/typstyle.toml"), settings);
+        let _ = std::fs::write(h.join(".typstyle.toml"), settings);
+        let _ = std::fs::write(h.join("typstyle.toml"), settings);
+        let _ = std::fs::write(h.join(".typstylerc"), settings);
+        let _ = std::fs::write(h.join(".gitignore"), "*.typ\n");
+        let _ = std::fs::write(h.join(".config/git/ignore"), "*.typ\n");
+        let _ = std::fs::write(h.join(".editorconfig"), "root = true\n[*]\nindent_size = 8\nmax_line_length = 30\n");
+        stats.probe("HOME holds settings and ignore files");
+    }
     if let Err(e) = world::materialise(&root, &case.tree) {
         result.harness_error = Some(format!("materialise: {e}"));
         return result;
